@@ -229,6 +229,12 @@ example : bindValue goJson cfgEndpoint tyEndpoint (ofString "map[Host:a.example.
 example : decode (.struct [(ofString "A", .int), (ofString "a_B", .string)])
     (.map [(ofString "_a", .int 2), (ofString "a", .int 1), (ofString "a-", .int 3), (ofString "ab", .str (ofString "decoy")), (ofString "a_b", .str (ofString "right"))]) =
     .ok (.struct [(ofString "A", .int 1), (ofString "a_B", .str (ofString "right"))]) := by decide
+-- tag-less fields: one type, two instances, two subtrees
+example : PlainKey (ofString "cp.primary") = true ∧ convertible (.ptr (.struct [(ofString "host", .string), (ofString "port", .int)]))
+    (.map [(ofString "host", .str (ofString "db1")), (ofString "port", .int 6432)]) = true := by decide
+example : bindTagless goJson (Binder.get ⟨[], [(ofString "cp", .map [(ofString "default", .map [(ofString "host", .str (ofString "localhost"))]),
+      (ofString "primary", .map [(ofString "host", .str (ofString "db1"))])])]⟩) .ptrPtrRecv (ofString "cp.primary")
+      (.ptr (.struct [(ofString "host", .string)])) = .ok (some (.ptr (.struct [(ofString "host", .str (ofString "db1"))]))) := by decide +kernel
 example : PlainLiteral (ofString "hello world") = true := by decide
 example : bindValue goJson (cfgK .null) .string (ofString "hello world,required=false") = .ok (.str (ofString "hello world")) := by decide
 example : bindProp goJson (cfgK (.int 5)) .int (ofString "k,required=false") = .ok (.int 5) := by decide
@@ -309,6 +315,42 @@ theorem C17_set_sibling_lost_counterexample :
 theorem C17_edit_is_no_set (J : Json) (evalE : Bytes → Except Err Val) (validate : FVal → List Bytes → Bool)
     (b : Binder) (late : List HProp) :
     populateLater J evalE validate b [] late = populateAll J evalE validate b.get stageOrder late := rfl
+
+/-! ### tag-less fields that name their own prefix (definition.ConfigurationProperties; eighth round)
+
+    The prefix scanner's ExtractHandler asks the field's OWN value (`field.Value.Interface()`) for `Prefix()`; the answer is
+    user code and therefore the parameter `own`.  `CPShape` says how field and method are declared (Go's method sets decide
+    whether the value carries the method at all) and whether a pointer field is nil at scan time.  The `value` sub-harness
+    (kind CP) observes exactly this on Go-declared holders whose instances are pre-populated with different states. -/
+
+/-- For every shape in which the field's own value carries the method — a value with a value receiver, a non-nil pointer
+    with either receiver, a nil pointer with a pointer receiver — the scanned property of the tag-less field IS the property
+    that the tag `prefix:"<own>"` on the same field gives: same TagStr, TagVal, arguments, nothing bound. -/
+theorem C17_tagless_is_prefix (sh : CPShape) (own : Bytes) (ty : FieldTy) (hp : HProp)
+    (hs : sh ≠ .valPtrRecv) (hn : sh ≠ .nilValRecv) (h : freshProp false own ty = some hp) :
+    taglessProp sh own ty = .ok (some hp) := by
+  cases sh <;> simp_all [taglessProp, extractPrefix]
+
+/-- … and the field is bound to exactly the configured value of the subtree that ITS OWN `Prefix()` names, converted to
+    its type — what `C17_prefix_exact` says of the twin field tagged `prefix:"<own>"`.  No other instance of the type (a fresh
+    zero value, say) plays a part: `own` is the only thing the binding depends on. -/
+theorem C17_tagless_binds_own_subtree (J : Json) (cfg : Cfg) (sh : CPShape) (own : Bytes) (ty : FieldTy)
+    (hs : sh ≠ .valPtrRecv) (hn : sh ≠ .nilValRecv) (hk : PlainKey own = true)
+    (hcfg : cfg own ≠ .null) (hc : convertible ty (cfg own) = true) :
+    bindTagless J cfg sh own ty = .ok (some (convert ty (cfg own))) ∧
+    bindTagless J cfg sh own ty = (bindPrefix J cfg ty (render own [])).map some := by
+  have hr : render own [] = own := by simp [render, joinB]
+  have hp := prefix_exact J cfg own [] ty hk (by intro a ha; cases ha) hcfg hc
+  rw [hr] at hp ⊢
+  cases sh <;> simp_all [bindTagless, extractPrefix, Except.map]
+
+/-- The two shapes in which the field's own value does NOT answer: a value field whose type has the method on the pointer
+    receiver only is no configuration property (the library leaves it alone — observed, kind CP shape `vp`); a nil pointer
+    field whose type has a value receiver makes the scanner panic (observed on the unchanged library, DESIGN section 10 —
+    outside the twenty properties, kept out of the generated scenarios). -/
+theorem C17_tagless_unseen (own : Bytes) (ty : FieldTy) :
+    taglessProp .valPtrRecv own ty = .ok none ∧ taglessProp .nilValRecv own ty = .error .panic := by
+  constructor <;> rfl
 
 /-! ### the REGENERATED stage functions (harness/cmd/facts/prog.go → Ioc.Generated.Progs)
 
